@@ -118,7 +118,12 @@ func cmdExec(args []string) {
 	} else {
 		res = runScenarioSeq(sc)
 	}
-	b, _ := json.Marshal(res)
+	eo := execOutput{Results: res}
+	if sc.Engine == "conc" {
+		c := lastConc
+		eo.Conc = &c
+	}
+	b, _ := json.Marshal(eo)
 	os.Stdout.Write(b)
 }
 
@@ -296,7 +301,7 @@ func determinismRecheck(p Prop, seed uint64, tier string) string {
 	n := p.Prepare(seed, tier)
 	k := 120
 	if p.Engine() == "hist" || p.Engine() == "conc" {
-		k = 24
+		k = 12
 	}
 	if k > n {
 		k = n
